@@ -16,14 +16,18 @@ ASSUMPTIONS = [
 ]
 SPEC = {'conf_quick': [('K0', 3)],
  'conf_thorough': [('K0', 4), ('K9', 3)],
- 'quick': [('K0', 'std', 3),
+ 'quick': [('K1', 'ar', 7),
+           ('K0', 'std', 3),
            ('K0', 'liq', 4),
            ('K9', 'liq', 4),
            ('K5', 'small', 3),
            ('K1', 'small', 4),
            ('lasso', 'K0', 'liq', 2, 30),
            ('lasso', 'K5', 'pairs2', 2, 60)],
- 'thorough': [('K0', 'std', 4),
+ 'thorough': [('K1', 'ar', 8),
+              ('K10', 'ar', 8),
+              ('K13', 'ar', 8),
+              ('K0', 'std', 4),
               ('K1', 'std', 4),
               ('K2', 'std', 4),
               ('K3', 'std', 4),
